@@ -107,7 +107,7 @@ def build(netname, spacedesc, tags=None, chem=None):
 
 
 QUICK_GRIDS = [("grid", 1, 1, 1, 0), ("grid", 2, 1, 1, 0), ("grid", 2, 1, 1, 1), ("grid", 1, 2, 1, 2), ("grid", 3, 1, 1, 1),
-               ("grid", 2, 2, 1, 4)]
+               ("grid", 2, 2, 1, 4), ("grid", 1, 1, 3, 3)]      # the last one: only the z axis extended and periodic (x, y reflecting)
 QUICK_GRAPHS = [("graph", "pair"), ("graph", "triangle"), ("graph", "path_isolated")]
 MULTI_GRAPHS = [("graph", "selfloop"), ("graph", "parallel")]
 THOROUGH_GRIDS = QUICK_GRIDS + [("grid", 1, 1, 2, 3), ("grid", 2, 2, 2, 7), ("grid", 2, 2, 2, 0), ("grid", 3, 2, 1, 5),
